@@ -151,6 +151,11 @@ def e2e_case(c):
     mol = Molecules(p[None] * scale, A)
     msh = c["max_shift_px"]
     kw = dict(max_shifts=(tuple(float(x) * scale for x in msh) if isinstance(msh, (list, tuple)) else msh * scale), alignment_model=M, rotations=rots)
+    if c.get("mask"):
+        # a soft mask wrapped around the (asymmetric) template density: every searched rotation has its own rotated mask
+        from scipy import ndimage as ndi
+        body = ndi.binary_dilation(tmpl > 0.25 * tmpl.max(), iterations=2)
+        kw["mask"] = np.clip(ndi.gaussian_filter(body.astype(np.float32), 1.0), 0.0, 1.0).astype(np.float32)
     if c["loader"] == "single":
         out = SubtomogramLoader(tomo, mol, order=3, scale=scale, output_shape=tmpl.shape).align(tmpl, **kw)
         mo = out.molecules
@@ -184,7 +189,7 @@ def e2e_case(c):
     ferr = np.abs(fs - s * scale).max()
     frot = Rotation.from_rotvec([[f["align-dzrot"][0], f["align-dyrot"][0], f["align-dxrot"][0]]])
     frerr = np.degrees((frot.inv() * q).magnitude()[0])
-    ptol = 0.6 if c["model"] == "fsc" else 0.3        # FSC scans integer lags (C04)
+    ptol = 0.6 if (c["model"] == "fsc" or c.get("mask")) else 0.3        # FSC scans integer lags; a soft mask truncates displaced density (C04)
     ok = perr <= ptol and rerr <= 0.5 and ferr <= ptol * scale + 0.006 and frerr <= 0.5
     return ok, f"pos err {perr:.3f} px, rot err {rerr:.3f} deg, shift-feature err {ferr:.3f} nm, rot-feature err {frerr:.3f} deg"
 
@@ -200,6 +205,15 @@ E2E_DIRECTED = [
          shift_px=[1.0, 1.0, -3.0], max_shift_px=[1.0, 1.0, 3.0]),
     dict(model="fsc", loader="group", scale=2.0, rv_true=[0.2, 0.0, 0.0], p_true=[22.0, 22.0, 23.0], rotations=[[0, 0], [0, 0], [0, 0]], k=0,
          shift_px=[-1.0, 2.0, 1.0], max_shift_px=[1.0, 3.0, 1.0]),
+    # rotation search together with a shape-following soft mask; the true rotation is not the first searched candidate
+    dict(model="zncc", loader="single", scale=1.0, rv_true=[0.1, 0.2, -0.1], p_true=[22.0, 22.5, 22.0], rotations=[[0, 0], [0, 0], [90, 90]], k=2,
+         shift_px=[1.0, -1.0, 0.5], max_shift_px=2.0, mask=True),
+    dict(model="pcc", loader="batch", scale=0.5, rv_true=[0.0, -0.3, 0.2], p_true=[22.0, 22.0, 22.5], rotations=[[90, 90], [0, 0], [0, 0]], k=1,
+         shift_px=[-1.0, 0.5, 1.0], max_shift_px=2.0, mask=True),
+    dict(model="ncc", loader="group", scale=2.0, rv_true=[0.3, 0.0, 0.1], p_true=[22.5, 22.0, 22.0], rotations=[[0, 0], [45, 45], [0, 0]], k=2,
+         shift_px=[0.5, 1.0, -1.0], max_shift_px=2.0, mask=True),
+    dict(model="zncc", loader="multi", scale=1.6, rv_true=[0.0, 0.0, 0.4], p_true=[22.0, 22.0, 22.0], rotations=[[0, 0], [0, 0], [90, 90]], k=1,
+         shift_px=[1.0, 0.0, -1.0], max_shift_px=2.0, mask=True),
 ]
 
 
